@@ -1,6 +1,7 @@
 #!/bin/bash
 # seed_check.sh <patch.diff> <PROP> [<PROP>...] : apply a seeded change to /repo, run the quick checks, undo it
 patch=$1; shift
+mkdir -p /verif/target; exec 9>/verif/target/.repo.lock; flock -x 9; export VERIF_REPO_LOCK_HELD=1
 cd /repo && git status --short | grep -q . && { echo "/repo not clean"; exit 2; }
 rm -rf /dev/shm/evidence.bak; cp -r /verif/evidence /dev/shm/evidence.bak
 git apply "$patch" || { echo "patch does not apply to /repo"; exit 2; }
